@@ -60,10 +60,19 @@ def loadBase (c : Cfg) (b : BaseFile) : Extends.FileRes :=
 /-- the file system C05's model is parametric in, computed from the raw files -/
 def fsOf (c : Cfg) (bs : List BaseFile) : Extends.FS := bs.map fun b => (b.ref, loadBase c b)
 
+/-- the stages of the per-document pipeline: an error of the referenced file's own load is returned unwrapped by
+`getExtendsBaseFromFile`, so it keeps its stage; every other error class of C05's model is an `extends` error -/
+def innerStages : List String := ["interpolate", "merge", "unicity", "schema", "canonical", "omitEmpty", "unicity2", "model"]
+
+def ofExtendsFS {α : Type} : Extends.Out α → Out α
+  | .ok a => .ok a
+  | .err cls => .err (if cls ∈ innerStages then cls else "extends")
+  | .panic s => .panic s
+
 /-- `if !opts.SkipExtends { err = ApplyExtends(ctx, cfg, opts, ct, processors...) }` with the files `bs` reachable -/
 def extendsStageFS (c : Cfg) (bs : List BaseFile) (cfg : KVs) : Out KVs :=
   if c.opts.skipExtends then .ok cfg
-  else ofExtends (Extends.applyExtends (Extends.realEnv c.mainFile (fsOf c bs)) cfg)
+  else ofExtendsFS (Extends.applyExtends (Extends.realEnv c.mainFile (fsOf c bs)) cfg)
 
 /-- `processRawYaml` of a main-model document -/
 def processDocFS (c : Cfg) (bs : List BaseFile) (dict : Val) (cfg : KVs) : Out Val :=
